@@ -489,10 +489,13 @@ fn case_machine(t: &mut Tape, ctx: &CaseCtx) -> CaseResult {
     if t.chance(1, 3) {
         return case_machine_eager(t, ctx);
     }
-    let p = SchedProfile { requests_w: 2, drop_machine: false, offer: (5, 6), min_wait: (1, 6), ..Default::default() };
+    let p = SchedProfile { requests_w: 2, drop_machine: false, offer: (5, 6), min_wait: (1, 6), switch_wakers: (1, 3), ..Default::default() };
     let (h, info) = run_scheduled(t, &p);
     let (nontrivial, mut classes) = check_log(&h, &info)?;
     classes.push("state_machine");
+    if h.script.switch_wakers {
+        classes.push("consumer_polls_with_alternating_wakers");
+    }
     Ok(CaseReport {
         key: hash_of(&format!("{:?}{:?}", h.script, info.steps)),
         nontrivial,
